@@ -320,6 +320,112 @@ def chain_configs(rng, hetero):
 
 
 # ------------------------------------------------------------------------------------------
+# ring PATTERNS against rings of the same shape with one bond doubled; ids around 0; colliding symbols
+
+RING_PATTERNS = ["C1CO1", "C1OC1", "C1CN1", "C1CS1", "RC1CO1", "RC1OC1R", "C1CCO1", "C1COC1", "C1CCN1", "RC1CCO1", "C1CSC1",
+                 "C1CCCO1", "C1CCOC1", "C1CCCN1", "RC1CCOC1", "C1COCO1", "C1CCSC1"]
+
+
+def shift_ids(g, f):
+    """the same graph with node ids n -> f(n); node order and adjacency order are kept"""
+    h = g.__class__()
+    for n in g._node:
+        h.add_node(f(n), **_deep_attrs(g._node[n]))
+    shared = {}
+    for n in g._node:
+        for v, dd in g._adj[n].items():
+            key = frozenset((n, v))
+            if key not in shared:
+                shared[key] = dict(dd)
+            h._adj[f(n)][f(v)] = shared[key]
+    return h
+
+
+def _deep_attrs(d):
+    return {k: (list(v) if isinstance(v, list) else v) for k, v in d.items()}
+
+
+def ring_pattern_molecules(pattern):
+    """the pattern itself as a molecule (R -> C), and one copy per RING bond with that bond doubled -> [(tag, graph)]"""
+    base = _frag(pattern)
+    for n in base.nodes:
+        if base.nodes[n]["symbol"] == "R":
+            base.nodes[n]["symbol"] = "C"
+    ring_edges = [e for e in base.edges if e not in set(nx.bridges(base))and (e[1], e[0]) not in set(nx.bridges(base))]
+    out = [("same", base)]
+    for (u, v) in ring_edges:
+        h = base.copy()
+        h.edges[u, v]["bond"] = 2
+        out.append(("double%d-%d" % (u, v), h))
+    return out
+
+
+def ring_pattern_config(rng, pattern):
+    """the ring pattern as the more specific user group, chain prefixes from its hetero atom as less specific groups"""
+    from fgutils.parse import parse
+    gp = parse(pattern)
+    het = [d["symbol"] for _, d in gp.nodes(data=True) if d["symbol"] not in ("C", "R", "H")]
+    x = het[0]
+    specs = [{"name": "ring_" + pattern, "pattern": pattern}]
+    for p in rng.sample(["C" + x, "CC" + x, "R" + x, "C" + x + "C", "R" + x + "R"], rng.randint(1, 3)):
+        specs.append({"name": "chain_" + p, "pattern": p})
+    if rng.random() < 0.3:
+        specs.append({"name": "ring2", "pattern": rng.choice([q for q in RING_PATTERNS if q != pattern])})
+    ga = rng.choice(["all", "all", "hetero"])
+    if ga == "hetero":
+        for s in specs:
+            g = parse(s["pattern"])
+            s["group_atoms"] = [n for n, d in g.nodes(data=True) if d["symbol"] not in ("C", "R", "H")]
+    rng.shuffle(specs)
+    return specs
+
+
+# (two-letter element, first letter, second letter): the concatenated lower-cased neighbour symbols coincide
+COLLIDING = [("Sn", "S", "N"), ("Si", "S", "I"), ("Co", "C", "O"), ("Cs", "C", "S"), ("No", "N", "O"), ("Os", "O", "S"),
+             ("Sc", "S", "C"), ("Hf", "H", "F"), ("In", "I", "N"), ("Cn", "C", "N"), ("Nb", "N", "B"), ("Pb", "P", "B")]
+
+
+def colliding_pair(rng):
+    """two molecules built directly: a hetero centre whose neighbour symbols, concatenated in adjacency order, read the same
+    ("Sn"+... vs "S"+"N"+...) although the neighbour lists differ -> (m1 with the two-letter element, m2 with the two atoms)"""
+    xy, x, y = rng.choice(COLLIDING)
+    z = rng.choice(["O", "N", "S", "P", "B", "O", "N"])
+    extra = [rng.choice(["C", "C", "O", "N", "Cl", "S"]) for _ in range(rng.randint(0, 2))]
+    front = rng.random() < 0.7
+
+    def build(nbrs):
+        g = nx.Graph()
+        g.add_node(0, symbol=z)
+        k = 1
+        for sy in nbrs:
+            g.add_node(k, symbol=sy)
+            g.add_edge(0, k, bond=1)
+            k += 1
+        # a second shell so that the neighbours are not all leaves
+        for i in range(1, len(nbrs) + 1):
+            if g.nodes[i]["symbol"] in ("C", "Sn", "Si", "S", "N") and rng.random() < 0.4:
+                g.add_node(k, symbol="C")
+                g.add_edge(i, k, bond=1)
+                k += 1
+        return g
+    m1 = build(([xy] + extra) if front else (extra + [xy]))
+    m2 = build(([x, y] + extra) if front else (extra + [x, y]))
+    return m1, m2, (xy, x, y, z)
+
+
+def colliding_config(rng, xy, x, y, z):
+    """user groups around the centre z that tell the two molecules apart: x-z-R, y-z-R, x-z-y (and the element itself
+    where the parser knows it), with R-z-R / R-z as less specific groups"""
+    pats = ["R" + z + "R", "R" + z, x + z + "R", y + z + "R", x + z + y]
+    if xy in ("Sn", "Si"):
+        pats += [xy + z, xy + z + "R"]
+    pats = list(dict.fromkeys(pats))
+    keep = [p for p in pats if rng.random() < 0.8] or pats[:2]
+    rng.shuffle(keep)
+    return [{"name": "k%d_%s" % (i, p), "pattern": p} for i, p in enumerate(keep)]
+
+
+# ------------------------------------------------------------------------------------------
 # implementation, in process
 
 def make_configs(specs):
